@@ -326,7 +326,10 @@ func cTokens(g *h.Gen, ti *terminfo.Terminfo, keys []string) []gtok {
 		{"altchar", []byte{0x1b, byte(g.R.Range(0x20, 0x7e))}},
 		{"text", []byte(h.Pick(g.R, []string{"x", "hello", "\r", "\t", "q", "M", "[", "<", ";", "\\", "\a"}))},
 		{"nearmiss", []byte(h.Pick(g.R, []string{"\x1b[", "\x1b[<", "\x1b[M", "\x1b]52;c;", "\x1b]52", "\x1b[<0;1", "\x1b[<0;1;1", "\x1bq[<0;5;5M", "\x1b[<-;1;1M",
-			"\x1b[<;;M", "\x1b[<1;2;3;4M", "\x1b[20", "\x1bO", "\x1babcdefgh\a", "\x1b]53;c;QUJD\a", "\x1b]52;p;QUJD\a", "\x1b]52;c;QUJD\x1bx", "\x1b]52;c;QU*D\a", "\xff\x1b[<0;5;5M"}))},
+			"\x1b[<;;M", "\x1b[<1;2;3;4M", "\x1b[20", "\x1bO", "\x1babcdefgh\a", "\x1b]53;c;QUJD\a", "\x1b]52;p;QUJD\a", "\x1b]52;c;QUJD\x1bx", "\x1b]52;c;QU*D\a", "\xff\x1b[<0;5;5M",
+			// bytes that belong to no SGR report in front of, inside and behind one (fixes/C02-sgr-strict.patch)
+			"\x1b[<0:5;5M", "\x1b[<<0;5;5M", "\x1b[<0;5;5xM", "\x1b[[<0;5;5M", "\x1b[<0;5 ;5M", "\x1b[<0 ;5;5M", "\x1b [<0;5;5M", "\x1b[ <0;5;5M",
+			"\x1b[<0;5;5~", "\x1b[<0;5;5;M", "\x1b[<0;5M", "z\x1b[<0;5;5M", "\xc3\x1b[<0;5;5m", "\x1b[<\xe9"+"0;5;5M"}))},
 		{"random", rnd},
 	}
 }
@@ -356,6 +359,11 @@ func genParseChunk(g *h.Gen) {
 		g.Emit("parsechunk %s%s utf8 80 24 1b5d35:0 323b633b614756736247:0 38383d0778:0", e, vs)
 		g.Emit("parsechunk %s%s utf8 80 24 1b61626364656667:0 6807:1", e, vs)
 		g.Emit("parsechunk %s%s utf8 80 24 1b715b3c303b353b354d:0", e, vs)
+		g.Emit("parsechunk %s%s utf8 80 24 1b715b3c303b353b354d:1", e, vs)   // sgr_junk_swallowed / sgr_strict_delivers
+		g.Emit("parsechunk %s%s utf8 80 24 ff1b5b3c303b353b354d:1", e, vs)   // sgr_strict_delivers_ff
+		g.Emit("parsechunk %s%s utf8 80 24 1b78:0", e, vs)                   // sgr_pinned_esc_waits / sgr_strict_esc_immediate
+		g.Emit("parsechunk %s%s utf8 80 24 1b78:0 -:1", e, vs)
+		g.Emit("parsechunk %s%s utf8 80 24 1b5b3c303b353b354d7879:0", e, vs) // example of sgr_no_junk
 		g.Emit("parsechunk %s%s utf8 80 24 1b:1", e, vs)
 	}
 	g.Emit("parsechunk rxvt%s utf8 80 24 1b5b4f61:0", vs)
